@@ -1,0 +1,17 @@
+//go:build verif
+
+package vgirpc
+
+// Verification hooks for property C24 (credential extractors): thin exported
+// wrappers around the unexported helpers of mtls.go. Add-only.
+
+// VerifSplitRespectingQuotes exposes splitRespectingQuotes.
+func VerifSplitRespectingQuotes(text string, delimiter byte) []string {
+	return splitRespectingQuotes(text, delimiter)
+}
+
+// VerifExtractCN exposes extractCN.
+func VerifExtractCN(subject string) string { return extractCN(subject) }
+
+// VerifUnescapeQuoted exposes unescapeQuoted.
+func VerifUnescapeQuoted(text string) string { return unescapeQuoted(text) }
